@@ -67,7 +67,7 @@ def tree_key(repo):
                 h.update(hashlib.sha256(fh.read()).digest())
     h.update(os.path.abspath(repo).encode())
     # extraction logic version: bump when core.py changes what it stores
-    h.update(b'core-v9')
+    h.update(b'core-v10')
     return h.hexdigest()[:24]
 
 
@@ -344,8 +344,8 @@ class Ctx:
                 objdump_raw = ['llvm-objdump-14', '-d', o]
             else:
                 must([CLANG, '--target=riscv64-linux-gnu', '-march=rv64gc', '-c', os.path.join(self.repo, src), '-o', o], 'assemble ' + src)
-                objdump = ['llvm-objdump-14', '-d', '--no-show-raw-insn', '-M', 'no-aliases', o]
-                objdump_raw = ['llvm-objdump-14', '-d', o]
+                objdump = ['llvm-objdump-14', '-d', '--mattr=+m,+a,+f,+d,+c', '--no-show-raw-insn', '-M', 'no-aliases', o]
+                objdump_raw = ['llvm-objdump-14', '-d', '--mattr=+m,+a,+f,+d,+c', o]
             nm = must(['nm', '-n', o] if arch == 'x86' else ['llvm-nm-14', '-n', o], 'nm').stdout
             with open(os.path.join(out, 'nm.txt'), 'w') as fh:
                 fh.write(nm)
